@@ -7,7 +7,8 @@ EXTENDS Rewrite, Json
 
 CONSTANTS Pool,       \* template indexes the builder may use
           MaxStmts, MaxRw,
-          Kinds       \* rewrite names allowed in this configuration
+          Kinds,      \* rewrite names allowed in this configuration
+          Unguarded   \* TRUE only in the negative configuration: also rename functions whose calls may run before the declaration
 
 VARIABLES orig, cur, hist, phase
 vars == <<orig, cur, hist, phase>>
@@ -53,7 +54,15 @@ Apply == /\ phase = "rw" /\ Len(hist) < MaxRw
               /\ hist' = Append(hist, r.rw)
          /\ UNCHANGED <<orig, phase>>
 
-Next == AddStmt \/ Start \/ Apply
+(* the same renaming WITHOUT the side condition CallAlwaysDeclared: not meaning-preserving, *)
+(* TLC must find InvPreserved violated (MC_Rewrite_neg.cfg)                                  *)
+ApplyUnguarded == /\ Unguarded /\ phase = "rw" /\ Len(hist) < MaxRw
+                  /\ \E f \in DeclaredFns(cur) :
+                       /\ cur' = Rename(cur, "fn", f, "g")
+                       /\ hist' = Append(hist, "RenameFnUnguarded")
+                  /\ UNCHANGED <<orig, phase>>
+
+Next == AddStmt \/ Start \/ Apply \/ ApplyUnguarded
 Spec == Init /\ [][Next]_vars
 
 (* the law, in every state of every chain *)
